@@ -21,5 +21,7 @@ structural('jit-flags', ['C15'], _lazy('numba_decorators'))
 structural('prange', ['C15'], _lazy('prange_race_freedom'))
 structural('numba-fallback', ['C15'], _lazy('numba_fallback'))
 structural('handlers', ['C20'], _lazy('handlers'))
-structural('caller-data', ['C19'], _lazy('caller_data_stores'))
+# C18: a vector-valued hyper-parameter stored in the argument bundle and then modified in place makes the vector form behave
+# differently from the scalar form
+structural('caller-data', ['C19', 'C18'], _lazy('caller_data_stores'))
 structural('masked-cost', ['C07', 'C06'], _lazy('masked_cost_dataflow'))
